@@ -275,6 +275,7 @@ struct GaussCase {
     bool skipP(const std::string& nm, bool on) { return fp->prediction().skip(nm, on); }
     bool skipC(bool on) { return fp->correction().skip(on); }
     bool skipM(const std::string& nm, bool on) { return fp->prediction().getStateModel().skip(nm, on); }
+    bool skipE(const std::string& nm, bool on) { return fp->prediction().getStateModel().exogenous_model().skip(nm, on); }   // ExogenousModel::skip itself
     // hand the steps over: move-construct new prediction / correction objects from the filter's and build a new filter
     void handover() {
         std::unique_ptr<GaussianPrediction> np; std::unique_ptr<GaussianCorrection> nc;
@@ -363,6 +364,7 @@ struct PartCase {
     bool skipP(const std::string& nm, bool on) { return fp->prediction().skip(nm, on); }
     bool skipC(bool on) { return fp->correction().skip(on); }
     bool skipM(const std::string& nm, bool on) { return fp->prediction().getStateModel().skip(nm, on); }
+    bool skipE(const std::string& nm, bool on) { return fp->prediction().getStateModel().exogenous_model().skip(nm, on); }   // ExogenousModel::skip itself
     void handover() {
         std::unique_ptr<PFPrediction> np; std::unique_ptr<PFCorrection> nc;
         if (pk == "gpfkf") np.reset(new GPFPrediction(std::move(dynamic_cast<GPFPrediction&>(fp->prediction()))));
@@ -393,6 +395,7 @@ template <class Case> static std::string runOps(Case& cs, Toks& t) {
             else if (lvl == 'P') ret = cs.skipP(nm, on);
             else if (lvl == 'C') ret = cs.skipC(on);
             else if (lvl == 'M') ret = cs.skipM(nm, on);
+            else if (lvl == 'E') ret = cs.skipE(nm, on);
             else throw vh::BadArgs("lvl:" + op);
             r = ret ? "r1" : "r0";
         } catch (const vh::BadArgs&) { throw; }
